@@ -226,9 +226,11 @@ pub fn streaming_case(cx: &mut Ctx, strings: &[String], terms: &[u8], cut_last: 
         bad
     });
     match r {
-        Err(p) => cx.sum.fail(cell, None, cj, &format!("panicked: {}", p)),
-        Ok(bad) => if !bad.is_empty() { cx.sum.fail(cell, None, cj, &bad.join("; ")); }
+        Err(p) => cx.sum.fail(cell, None, cj.clone(), &format!("panicked: {}", p)),
+        Ok(bad) => if !bad.is_empty() { cx.sum.fail(cell, None, cj.clone(), &bad.join("; ")); }
     }
+    let mix = terms.iter().fold(strings.len() as u64 * 7 + cut_last as u64, |a, &t| a.wrapping_mul(31).wrapping_add(t as u64 + 1));
+    x::stream_emit(cx, cj, text.as_bytes(), strings.len(), mix);
 }
 
 // ---------------------------------------------------------------- SortableStrVec
@@ -248,6 +250,8 @@ pub fn sortable_case(cx: &mut Ctx, strings: &[String], probes: &[String]) {
     let cell = "SortableStrVec";
     cx.sum.eval(cell, &format!("ssv {:?} {:?}", strings, probes), strings.len() >= 2);
     let cj = json!({"cell": "sortable", "strings": strings, "probes": probes});
+    x::search_emit(cx, cj.clone(), strings, probes);
+    x::push_emit(cx, cj.clone(), strings);
     let r = guarded(|| {
         let mut bad: Vec<String> = vec![];
         let n = strings.len();
@@ -360,6 +364,7 @@ pub fn zo_case(cx: &mut Ctx, strings: &[String], probes: &[String]) {
     let cell = "ZoSortedStrVec";
     cx.sum.eval(cell, &format!("zo {:?} {:?}", strings, probes), strings.len() >= 2);
     let cj = json!({"cell": "zo", "strings": strings, "probes": probes});
+    x::zo_emit(cx, cj.clone(), strings, probes);
     let r = guarded(|| {
         let mut bad: Vec<String> = vec![];
         let mut sorted: Vec<String> = strings.to_vec();
@@ -480,6 +485,7 @@ pub fn unicode_case(cx: &mut Ctx, text: &[u8]) {
         Err(p) => cx.sum.fail(cell, None, cj, &format!("panicked: {}", p)),
         Ok(bad) => if !bad.is_empty() { cx.sum.fail(cell, None, cj, &bad.join("; ")); }
     }
+    x::utf8_emit(cx, text);
 }
 
 // ---------------------------------------------------------------- LineProcessor configurations
@@ -552,6 +558,7 @@ pub fn lines_cfg_case(cx: &mut Ctx, text: &str, cfgbits: u64, batch: usize, deli
         Err(p) => cx.sum.fail(cell, None, cj, &format!("panicked: {}", p)),
         Ok(bad) => if !bad.is_empty() { cx.sum.fail(cell, None, cj, &bad.join("; ")); }
     }
+    x::lines_cfg_emit(cx, text, cfgbits, batch, delim);
 }
 
 // ---------------------------------------------------------------- lexicographic iterator: operation histories for the model
